@@ -13,7 +13,11 @@ for k in common.load_known():
     if k.get('status') == 'fixed' and k.get('commit') and k['commit'] not in fix_commits:
         fix_commits.append(k['commit'])
 NA_REASONS = json.load(open(os.path.join(HERE, 'not_claimed.json'))) if os.path.exists(os.path.join(HERE, 'not_claimed.json')) else {}
+CLAIMED = json.load(open(os.path.join(HERE, 'claimed.json')))
 for pid in ALL:
+    if pid not in CLAIMED:
+        na.append({'property_id': pid, 'reason': NA_REASONS.get(pid, 'check under construction (Lean model and correspondence in progress); not claimed yet')})
+        continue
     if not os.path.exists(os.path.join(HERE, 'props', pid + '.py')):
         na.append({'property_id': pid, 'reason': NA_REASONS.get(pid, 'check not built yet (Lean model and correspondence in progress); not claimed')})
         continue
